@@ -6,6 +6,7 @@ import (
 	"go/token"
 	"go/types"
 	"sort"
+	"strings"
 
 	"golang.org/x/tools/go/ssa"
 
@@ -36,6 +37,8 @@ func init() {
 			{ID: "C03.R5", Doc: "checkFinished: fin.Set guarded by term.IsSet && write.Unlocked && read.Unlocked; fin send / ctx.sig / task.End only if fin.Set won", Run: c03r5},
 			{ID: "C03.R6", Doc: "order of signal updates in terminate and in the error/cancel/half-close transitions", Run: c03r6},
 			{ID: "C03.R7", Doc: "HandlePacket handles every Kind constant; unknown kinds are an error only without the control bit", Run: c03r7},
+			{ID: "C03.R8", Doc: "a terminal call that emits a packet holds Stream.write while it makes the (possibly terminating) state change, so the stream cannot finish before the packet is written", Run: c03r8},
+			{ID: "C03.R9", Doc: "inspectMutex: the held flag is written only while the embedded mutex is held (set after Lock, cleared before Unlock)", Run: c03r9},
 		},
 	})
 }
@@ -784,4 +787,100 @@ func c03r7(c *an.Ctx) {
 		c.Check(ok, "HandlePacket default | "+what+" only without the control bit", c.At(in), "", "an unknown packet kind with the control bit set disturbs the stream (must be ignored for forward compatibility)")
 	})
 	c.Floor("effects in HandlePacket's default branch", 1, n)
+}
+
+func c03r8(c *an.Ctx) {
+	sa := streamA(c)
+	pl := locksOf(c, "drpcstream")
+	n := 0
+	for _, fn := range must(c.P.SourceFuncs("drpcstream")) {
+		sends := an.CallsTo(fn, false, sa.sendPkt)
+		if len(sends) == 0 {
+			continue
+		}
+		an.Instrs(fn, func(in ssa.Instruction) {
+			ci, ok := in.(ssa.CallInstruction)
+			if !ok {
+				return
+			}
+			if _, isDefer := in.(*ssa.Defer); isDefer {
+				return
+			}
+			cc := ci.Common()
+			if !an.IsCallTo(cc, sa.terminate) && !an.IsCallTo(cc, sa.termBoth) {
+				return
+			}
+			// only state changes that precede an emission in this function
+			precedes := false
+			for _, s := range sends {
+				if an.CanReach(in, s.Instr) {
+					precedes = true
+				}
+			}
+			if !precedes {
+				return
+			}
+			n++
+			c.Analysed(fn)
+			root := an.PathOf(an.Recv(cc)).Root
+			c.Check(pl.MustHoldClass(in, root, sa.write), fmt.Sprintf("%s | %s under Stream.write (emission follows)", an.ShortFunc(fn), an.CalleeObj(cc).Name()), c.At(in), "",
+				"the stream can be terminated here without the write lock held although this call still has to write its packet: checkFinished sees both operation locks free, the stream finishes, the manager starts the next RPC, and this packet is written after (or between) the next stream's frames")
+		})
+	}
+	c.Floor("terminating state changes followed by an emission", 1, n)
+}
+
+func c03r9(c *an.Ctx) {
+	a := A(c)
+	held := a.field("drpcstream", "inspectMutex", "held")
+	named := must(c.P.Named("drpcstream", "inspectMutex"))
+	st, _ := named.Underlying().(*types.Struct)
+	var emb *types.Var
+	for i := 0; st != nil && i < st.NumFields(); i++ {
+		if st.Field(i).Embedded() {
+			emb = st.Field(i)
+		}
+	}
+	if emb == nil {
+		panic(&an.Unresolved{What: "inspectMutex embedded mutex"})
+	}
+	lt := sharedOf(c.P).lt
+	n := 0
+	for i := 0; i < named.NumMethods(); i++ {
+		fn := c.P.SSA.FuncValue(named.Method(i))
+		if fn == nil || len(fn.Blocks) == 0 {
+			continue
+		}
+		lf := lt.NewLockFlow(fn, []string{""}, nil)
+		initHeld := false
+		if fn.Name() == "Unlock" {
+			// Unlock is entered with the mutex held
+			inner := an.LockID{Root: fn.Params[0], Fields: []*types.Var{emb}}
+			lf = lt.NewLockFlow(fn, []string{inner.Key()}, nil)
+			initHeld = true
+		}
+		_ = initHeld
+		an.Instrs(fn, func(in ssa.Instruction) {
+			ci, ok := in.(ssa.CallInstruction)
+			if !ok {
+				return
+			}
+			obj := an.CalleeObj(ci.Common())
+			if obj == nil || obj.Pkg() == nil || obj.Pkg().Path() != "sync/atomic" || !strings.HasPrefix(obj.Name(), "Store") {
+				return
+			}
+			if fv := an.PathOf(ci.Common().Args[0]).Last(); fv == nil || fv.Origin() != held.Origin() {
+				return
+			}
+			n++
+			c.Analysed(fn)
+			okHeld := len(lf.Must(in)) > 0
+			if _, isDefer := in.(*ssa.Defer); isDefer {
+				okHeld = false
+			}
+			c.Check(okHeld, fmt.Sprintf("%s | held flag written while the mutex is held", an.ShortFunc(fn)), c.At(in), "",
+				"inspectMutex's held flag is written outside the critical section of the embedded mutex: a waiter that finally acquires the lock can own it with held==0 (the previous holder's Unlock cleared it), so checkFinished believes no operation is in flight and finishes the stream under a pending write")
+		})
+	}
+	c.Floor("held-flag writes in inspectMutex", 1, n)
 }
